@@ -48,7 +48,13 @@ struct Sol {
   void (*draw)(vh::Rng&, Draw&, const std::vector<std::string>& names);
   void (*point)(vh::Rng&, long double* x, int n);
   void (*eval)(Ctx&);
+  // special values: which parameters may be set to exactly 0 / +-1 / a small integer / the value of another parameter without
+  // leaving the admissible set (nullptr: default_special_ok); coordinates from index zero_coord_from on may be set to exactly 0 (-1: none)
+  int (*special_ok)(const std::string& name) = nullptr;   // 0: no, 1: zero only, 2: any special value
+  int zero_coord_from = 0;
 };
+int default_special_ok(const std::string& name);
+void specialise(vh::Rng& r, const Sol& s, Draw& d, const std::vector<std::string>& names, std::string& what);
 
 const std::vector<Sol>& registry();
 const Sol* find(const std::string& name);
